@@ -91,6 +91,7 @@ fn main() {
         "skfdamage" => skfdamage(&args[2..]),
         "rt" => rt(&args[2..]),
         "fresh" => fresh(&args[2..]),
+        "multik" => multik(&args[2..]),
         "cov" => cov(&args[2..]),
         "covfn" => covfn(),
         "covfit" => covfit(&args[2..]),
@@ -498,7 +499,7 @@ fn rt_op<IntT: Wide>(mut arr: MergeSkaArray<IntT>, op: &[String]) {
     let mut o = out.lock();
     match op[0].as_str() {
         "nk" => {
-            write!(o, "{arr}{arr:?}").unwrap();
+            write!(o, "{arr}\n{arr:?}").unwrap();
         }
         "align" => {
             let filter = parse_filter(&op[1]);
@@ -528,12 +529,12 @@ fn rt_op<IntT: Wide>(mut arr: MergeSkaArray<IntT>, op: &[String]) {
         "weed" => {
             let w = RefSka::<IntT>::new(arr.kmer_len(), &op[1], arr.rc(), false, false);
             arr.weed(&w, op[2] == "1");
-            write!(o, "{arr}{arr:?}").unwrap();
+            write!(o, "{arr}\n{arr:?}").unwrap();
         }
         "delete" => {
             let names: Vec<&str> = op[1..].iter().map(|s| s.as_str()).collect();
             arr.delete_samples(&names);
-            write!(o, "{arr}{arr:?}").unwrap();
+            write!(o, "{arr}\n{arr:?}").unwrap();
         }
         _ => usage(),
     }
@@ -576,6 +577,27 @@ fn rt(a: &[String]) {
     } else {
         println!("REJECT");
         std::process::exit(3);
+    }
+}
+
+/// multik <listfile>: lines `k rc fasta`; every build runs in this one process, in the given order, and its read-out is
+/// printed after a line `== <n>` (a cache that survives from one k to the next would show in the later ones)
+fn multik(a: &[String]) {
+    let txt = std::fs::read_to_string(&a[0]).unwrap();
+    let q = QualOpts { min_count: 1, min_qual: 0, qual_filter: QualFilter::NoFilter };
+    for (n, line) in txt.lines().filter(|l| !l.is_empty()).enumerate() {
+        let p: Vec<&str> = line.split_whitespace().collect();
+        let k: usize = p[0].parse().unwrap();
+        let rc = p[1] == "1";
+        let files: Vec<InputFastx> = vec![("s0".to_string(), p[2].to_string(), None)];
+        println!("== {n}");
+        if k <= 31 {
+            let arr = MergeSkaArray::new(&build_and_merge::<u64>(&files, k, rc, &q, 1, None));
+            print!("{arr}\n{arr:?}");
+        } else {
+            let arr = MergeSkaArray::new(&build_and_merge::<u128>(&files, k, rc, &q, 1, None));
+            print!("{arr}\n{arr:?}");
+        }
     }
 }
 
